@@ -16,80 +16,91 @@ pub struct Counter {
     has_bundled_output: bool,
 }
 
+/// Each class of arguments (input buffers, output buffers, input objects, output objects) is
+/// described by a 4-bit field of the counts word of an invocation.
+pub const MAX_PER_CLASS: u8 = 15;
+
+/// Adds to a counter without wrapping; anything that does not fit saturates, and the limit
+/// check in [`Counter::new`] reports it.
+#[inline]
+fn bump(field: &mut u8, by: usize) {
+    *field = u8::try_from(usize::from(*field) + by).unwrap_or(u8::MAX);
+}
+
 impl super::functions::ParameterVisitor for Counter {
     #[inline]
     fn visit_input_primitive_buffer(&mut self, _: &Ident, _: Primitive) {
-        self.input_buffers += 1;
+        bump(&mut self.input_buffers, 1);
     }
 
     #[inline]
     fn visit_input_struct_buffer(&mut self, _: &Ident, _: &StructInner) {
-        self.input_buffers += 1;
+        bump(&mut self.input_buffers, 1);
     }
 
     #[inline]
     fn visit_input_primitive(&mut self, _: &Ident, _: Primitive) {
         self.has_bundled_input = true;
-        self.total_bundled_input += 1;
+        bump(&mut self.total_bundled_input, 1);
     }
 
     #[inline]
     fn visit_input_small_struct(&mut self, _: &Ident, _: &StructInner) {
         self.has_bundled_input = true;
-        self.total_bundled_input += 1;
+        bump(&mut self.total_bundled_input, 1);
     }
 
     #[inline]
     fn visit_input_big_struct(&mut self, _: &Ident, s: &StructInner) {
-        self.input_buffers += 1;
-        self.input_objects += u8::try_from(s.objects().len()).unwrap();
+        bump(&mut self.input_buffers, 1);
+        bump(&mut self.input_objects, s.objects().len());
     }
 
     #[inline]
     fn visit_input_object(&mut self, _: &Ident, _: Option<&str>) {
-        self.input_objects += 1;
+        bump(&mut self.input_objects, 1);
     }
 
     #[inline]
     fn visit_input_object_array(&mut self, _: &Ident, _: Option<&str>, cnt: Count) {
-        self.input_objects += u8::try_from(cnt.get()).unwrap();
+        bump(&mut self.input_objects, usize::from(cnt.get()));
     }
 
     #[inline]
     fn visit_output_primitive_buffer(&mut self, _: &Ident, _: Primitive) {
-        self.output_buffers += 1;
+        bump(&mut self.output_buffers, 1);
     }
 
     #[inline]
     fn visit_output_struct_buffer(&mut self, _: &Ident, _: &StructInner) {
-        self.output_buffers += 1;
+        bump(&mut self.output_buffers, 1);
     }
 
     #[inline]
     fn visit_output_primitive(&mut self, _: &Ident, _: Primitive) {
         self.has_bundled_output = true;
-        self.total_bundled_output += 1;
+        bump(&mut self.total_bundled_output, 1);
     }
     #[inline]
     fn visit_output_small_struct(&mut self, _: &Ident, _: &StructInner) {
         self.has_bundled_output = true;
-        self.total_bundled_output += 1;
+        bump(&mut self.total_bundled_output, 1);
     }
 
     #[inline]
     fn visit_output_big_struct(&mut self, _: &Ident, s: &StructInner) {
-        self.output_buffers += 1;
-        self.output_objects += u8::try_from(s.objects().len()).unwrap();
+        bump(&mut self.output_buffers, 1);
+        bump(&mut self.output_objects, s.objects().len());
     }
 
     #[inline]
     fn visit_output_object(&mut self, _: &Ident, _: Option<&str>) {
-        self.output_objects += 1;
+        bump(&mut self.output_objects, 1);
     }
 
     #[inline]
     fn visit_output_object_array(&mut self, _: &Ident, _: Option<&str>, cnt: Count) {
-        self.output_objects += u8::try_from(cnt.get()).unwrap();
+        bump(&mut self.output_objects, usize::from(cnt.get()));
     }
 }
 
@@ -99,8 +110,21 @@ impl Counter {
         let mut me = Self::default();
         super::functions::visit_params(function, &mut me);
 
-        me.input_buffers += me.has_bundled_input.then_some(1).unwrap_or_default();
-        me.output_buffers += me.has_bundled_output.then_some(1).unwrap_or_default();
+        bump(&mut me.input_buffers, usize::from(me.has_bundled_input));
+        bump(&mut me.output_buffers, usize::from(me.has_bundled_output));
+
+        for (class, count) in [
+            ("input buffers", me.input_buffers),
+            ("output buffers", me.output_buffers),
+            ("input objects", me.input_objects),
+            ("output objects", me.output_objects),
+        ] {
+            assert!(
+                count <= MAX_PER_CLASS,
+                "method `{}` needs more than {MAX_PER_CLASS} {class}; the counts word of an invocation has 4 bits per class",
+                function.ident
+            );
+        }
 
         me
     }
